@@ -355,6 +355,12 @@ def recipes():
     add('plot.hist1d(bins list)', ALL, lambda d, k: (dict(data=d, bins=list(np.linspace(1, 1e4, 30)), xlim=[1, 1e4]), fig(lambda a: FlowCal.plot.hist1d(a['data'], channel=ch(k), xscale='log', bins=a['bins'], xlim=a['xlim']))), plot=True, cheap=False)
     add('plot.density2d(scatter)', ALL, lambda d, k: (dict(data=d, channels=sc(k), bins=[np.linspace(200, 600, 17), np.linspace(200, 500, 13)]),
                                                       fig(lambda a: FlowCal.plot.density2d(a['data'], a['channels'], bins=a['bins'], mode='scatter', xscale='linear', yscale='linear', sigma=1.0))), plot=True, cheap=False)
+    for xs_, ys_ in (('log', 'log'), ('linear', 'log'), ('log', 'logicle')):
+        add('plot.density2d(edge arrays from below zero,%s/%s)' % (xs_, ys_), ALL, lambda d, k, xs_=xs_, ys_=ys_: (
+            dict(data=d, channels=sc(k), bins=[np.linspace(-0.5, 1023.5, 17), np.linspace(-0.5, 1023.5, 13)]),
+            fig(lambda a: FlowCal.plot.density2d(a['data'], a['channels'], bins=a['bins'], mode='mesh', xscale=xs_, yscale=ys_, sigma=1.0))), plot=True, cheap=False)
+    add('plot.density2d(one edge array for both axes,log)', ALL, lambda d, k: (dict(data=d, channels=sc(k), bins=np.linspace(0.0, 1024.0, 17)),
+                                                                              fig(lambda a: FlowCal.plot.density2d(a['data'], a['channels'], bins=a['bins'], mode='scatter', xscale='log', yscale='log', sigma=1.0))), plot=True, cheap=False)
     add('plot.density2d(int bins,array)', ALL, lambda d, k: (dict(data=d, channels=sc(k)), fig(lambda a: FlowCal.plot.density2d(a['data'], a['channels'], bins=16, mode='mesh', xscale='linear', yscale='linear', sigma=1.0))), plot=True, cheap=False)
     add('plot.scatter3d', ALL, lambda d, k: (dict(data_list=[d], channels=[0, 2, 3]), fig(lambda a: FlowCal.plot.scatter3d(a['data_list'], a['channels'], xscale='linear', yscale='log', zscale='logicle', **(dict(xlim=[1., 2000.], ylim=[1., 1e4], zlim=[1., 1e4]) if k == 'array' else {})))), plot=True, cheap=False)
     add('plot.scatter3d_and_projections', S, lambda d, k: (dict(data_list=[d], channels=['FSC-H', 'FL1-H', 'FL2-H']), lambda a: FlowCal.plot.scatter3d_and_projections(a['data_list'], a['channels'])), plot=True, cheap=False)
